@@ -53,6 +53,9 @@ func main() {
 	if *phase == "race" {
 		os.Exit(dispatchRace(prop, *tier, seed))
 	}
+	if *phase == "failpoints" {
+		os.Exit(conc.RunFailpoints(prop, *tier, seed))
+	}
 	code := dispatch(prop, *tier, seed)
 	pprof.StopCPUProfile()
 	os.Exit(code)
@@ -60,6 +63,7 @@ func main() {
 
 func dispatch(prop, tier string, seed int64) int {
 	hdr.Extra["C19"] = pow.C19Fixture
+	hdr.Extra["C12"] = hdr.C12DeepReorg
 	if _, ok := hdr.HistCheckFor(prop); ok {
 		return hdr.RunHist(prop, tier, seed)
 	}
